@@ -194,7 +194,7 @@ def make_unrelated(ta, tb, ids=(0, 1), files=0, props=("C01",), known=(),
 
 ALL_TEMPLATES = ["codeA", "codeB", "codeA0", "codeErr", "codeDisp", "codeRes2", "codeJobj",
                  "codeJlol", "codeJloo", "codeJsc", "codeS", "md", "mdAtt", "raw", "codeT",
-                 "codeL", "codeU", "codeEmp", "codeMime", "codeTr", "codeLol", "mdAtt1"]
+                 "codeL", "codeU", "codeEmp", "codeMime", "codeTr", "codeLol", "mdAtt1", "codeJvnd"]
 
 
 def shards(tier, props, known, files=None, lite=False):
